@@ -706,6 +706,9 @@ class Fn:
                 if n and n[0] == "mcall" and n[1][0] == "path" and len(n[1][1]) == 1 and (n[1][1][0] + "." + n[2]) in self.spec.get("state_calls", {}):
                     if self.spec["state"] not in out:
                         out.append(self.spec["state"])
+                if n and n[0] == "call" and len(n) == 3 and n[1][0] == "path" and "::".join(n[1][1]) in self.spec.get("effects", {}):
+                    if "effs" not in out:
+                        out.append("effs")
                 if n and n[0] == "call" and len(n) == 3 and n[1][0] == "path" and "::".join(n[1][1]) in self.spec.get("state_fn_calls", {}):
                     for bv in self.spec["state_fn_calls"]["::".join(n[1][1])][1]:
                         if bv not in out:
@@ -1063,6 +1066,10 @@ class Fn:
             if e[0] == "macro" and e[1] in ("debug_assert", "debug_assert_eq", "debug_assert_ne"):
                 return after(env)
             if e[0] == "macro" and e[1] in ("println", "eprintln") and self.spec.get("prints_ignored"):
+                fmt = e[2][0][1] if e[2] and e[2][0][0] == "str" else ""
+                for key, efft in self.spec.get("print_effects", []):
+                    if key in fmt:
+                        return "let effs := effs ++ [%s] in %s" % (efft, after(env))
                 return after(env)
             if e[0] in ("if", "iflet", "match", "block"):
                 # statement position: every branch continues with the rest of the block (duplicated)
@@ -1737,6 +1744,59 @@ def functions():
         return ("Definition g_run_bisync (s : state) (dry_run verbose : bool) : fs * option (gmap K D) * list (K * action) * gres :=\n  %s." % text)
     out.append(("run_bisync", "src/bin/copia/bidir.rs run_bisync", None, t_run_bisync))
 
+    SPAWN_LOCAL = """{
+    let s = src.join(rel);
+    let d = dst.join(rel);
+    let sem = Arc::clone(&semaphore);
+    let prog = progress.clone();
+    let rel_disp = rel.display().to_string();
+    handles.push(tokio::spawn(async move {
+        let _permit = sem.acquire().await;
+        match deliver_local(&s, &d, mtime).await {
+            Ok(size) => prog.record_ok(size),
+            Err(e) => prog.record_err(&rel_disp, &e),
+        }
+    }));
+}"""
+
+    def t_run_local():
+        src = read("src/bin/copia/incremental.rs")
+        params, ret, body = R.find_fn(src, "run_local", None)
+        norm = lambda x: json.loads(json.dumps(x))
+        want = R.Parser(R.tokenize(SPAWN_LOCAL)).block()[1]
+        loops = [st for st in body[1] if st[0] == "for" and norm(st[2]) == norm(("field", ("path", ["plan"]), "transfer"))]
+        if len(loops) != 1:
+            raise Unsupported("run_local: expected exactly one loop over plan.transfer")
+        lb = list(loops[0][3][1])
+        if loops[0][3][2] is not None or len(lb) != 1 + len(want) or norm(lb[1:]) != norm(want) or lb[0][0] != "let" or lb[0][1] != ("pbind", "mtime"):
+            raise Unsupported("run_local: a planned file is no longer handed to `tokio::spawn(async move { let _permit = sem.acquire().await; match deliver_local(&s, &d, mtime).await { Ok(size) => prog.record_ok(size), Err(e) => prog.record_err(&rel_disp, &e) } })` with s = src.join(rel), d = dst.join(rel)")
+        new_loop = ("for", loops[0][1], loops[0][2], ("block", [lb[0], ("expr", ("call", ("path", ["SPAWN_DELIVER_LOCAL"]), [("path", ["rel"]), ("path", ["mtime"])]), True)], None))
+        stmts = [new_loop if st is loops[0] else st for st in body[1]]
+        if [n for n, _ in params] != ["src", "dst", "opts"]:
+            raise Unsupported("signature of run_local is %s" % params)
+        spec = dict(try_transparent=True, prints_ignored=True,
+                    print_effects=[("No files found", "ENoFiles"), ("Already up to date", "EUpToDate")],
+                    rename={"src": "SRC", "dst": "DST"},
+                    fields={("SyncOptions", "delete"): ("(o_delete {0})", "bool"), ("SyncOptions", "excludes"): ("(o_excludes {0})", "[String]"),
+                            ("SyncOptions", "dry_run"): ("(o_dry_run {0})", "bool"), ("SyncOptions", "jobs"): ("jobs (* {0} *)", "usize"),
+                            ("SyncOptions", "verbose"): ("verbose (* {0} *)", "bool"),
+                            ("SyncPlan", "transfer"): ("(transfer {0})", "Vec<PathBuf>"), ("SyncPlan", "delete"): ("(sp_delete {0})", "Vec<PathBuf>"),
+                            ("FileMeta", "mtime"): ("(fm_mtime {0})", "i64")},
+                    calls={"Instant::now": ("tt", "Instant"), "discover_local_with_meta": ("scan_meta {0}", "MetaMap"),
+                           ".unwrap_or_default": ("{0}", "MetaMap"), "build_plan": ("build_plan {0} {1} {2} {3}", "SyncPlan"),
+                           "collect_dirs": ("collect_dirs {0}", "Vec<PathBuf>"), "Arc::new": ("tt (* {0} *)", "Sem"), "Semaphore::new": ("tt (* {0} *)", "Sem"),
+                           "TransferProgress::new": ("tt (* {0} *)", "Progress"), "Vec::with_capacity": ("tt (* {0} *)", "Handles"),
+                           ".get": ("mm_get {1} {0}", "Option<FileMeta>"), ".join": ("({0}, {1})", "Place"), ".display": ("{0}", "String"),
+                           "report": ("effs ++ [EReport] (* {0} {1} {3} {4} {5} *)", "Result")},
+                    effects={"print_plan": "EPrintPlan {0} {1}", "create_local_dirs": "ECreateDirs {0} {1}", "SPAWN_DELIVER_LOCAL": "ESpawn {0} {1}",
+                             "join_handles": "EJoin (* {0} *)", "std::fs::remove_file": "ERemove {0}"},
+                    ok=lambda s_: "effs", prologue="let effs := [] in ")
+        fn = Fn(spec)
+        env = {"src": "Path", "dst": "Path", "opts": "SyncOptions"}
+        text = spec["prologue"] + fn.block(("block", stmts, body[2]), env, Ctx(val=(lambda x: x), ret=(lambda x: x), fall=None))
+        return "Definition g_run_local (opts : OneWay.opts) (jobs : Z) (verbose : bool) : list leff :=\n  %s." % text
+    out.append(("run_local", "src/bin/copia/incremental.rs run_local", None, t_run_local))
+
     def t_safe_join():
         src = read("src/bin/copia/serve.rs")
         spec = dict(signature=[("root", "Path"), ("rel", "str")],
@@ -1768,6 +1828,7 @@ GROUPS = {
     "BisyncSys": ("", "bisyncsys", ["copy_atomic"]),
     "ArchiveSave": ("Model.ArchiveSys", "archivesys", ["archive_save"]),
     "OneWaySys": ("Model.OneWaySys", "onewaysys", ["tmp_path", "deliver_local", "deliver_pull"]),
+    "OneWayRun": ("Model.Glob Model.Plan Model.OneWay", "onewayrun", ["run_local"]),
     "Archive": ("Model.Archive", "archive", ["archive_load"]),
     "Plan": ("Model.Glob Model.Plan", False, ["needs_transfer", "glob_match", "is_excluded", "build_plan"]),
     "Protocol": ("Model.Checksum Model.Delta Model.Protocol", False, ["from_u8", "hvalidate"]),
@@ -1870,6 +1931,13 @@ def main():
                     "  let w' := Bisync.apply dge cname a b {| wA := fst (fst w); wB := snd (fst w); wC := common; wConf := length conf; wErr := snd w |} (p, act) in\n"
                     "  ((wA w', wB w', wErr w'), wC w', repeat tt (wConf w')).\n\n"
                     + "\n".join(texts) + "End WithBisync.\n")
+        elif digest == "onewayrun":
+            body += ("\nSection WithScans.\nVariable src_meta dst_meta : metamap.   (* discover_local_with_meta(src), discover_local_with_meta(dst).unwrap_or_default() *)\n"
+                     "Variable collect_dirs : list (list Z) -> list (list Z).\n"
+                     "Inductive root := SRC | DST.\nDefinition scan_meta (r : root) : metamap := match r with SRC => src_meta | DST => dst_meta end.\n"
+                     "(* what run_local does, in order *)\n"
+                     "Inductive leff := ENoFiles | EPrintPlan (p : sync_plan) (dry : bool) | EUpToDate | ECreateDirs (r : root) (dirs : list (list Z))\n"
+                     "  | ESpawn (rel : list Z) (mtime : option Z) | EJoin | ERemove (at_ : root * list Z) | EReport.\n\n" + "\n".join(texts) + "End WithScans.\n")
         elif digest == "archivesys":
             body = (HEADER % (group, imports)) + "\nSection WithFs.\nVariable path_exists : apath -> bool.   (* path.exists() *)\n\n" + "\n".join(texts) + "End WithFs.\n"
         elif digest == "onewaysys":
